@@ -22,11 +22,12 @@ ROWS_PER_RECORD = (2, 1, 2, 1, 1, 2, 1)
 
 
 def dataset(n):
-  """n records; record i is a batch of ROWS_PER_RECORD[i] rows with columns
-  a (feature in {1,2}) and v (r*r+1 for the global row index r)."""
+  """n records; record i is a batch of ROWS_PER_RECORD[i mod 7] rows with
+  columns a (feature in {1,2}) and v (r*r+1 for the global row index r; no two
+  rows - hence no two records - are equal)."""
   out, r = [], 0
   for i in range(n):
-    k = ROWS_PER_RECORD[i]
+    k = ROWS_PER_RECORD[i % len(ROWS_PER_RECORD)]
     out.append({'a': [1 + (r + j) % 2 for j in range(k)],
                 'v': [(r + j) * (r + j) + 1 for j in range(k)]})
     r += k
@@ -140,10 +141,21 @@ def cut_sets(m):
     yield from itt.combinations(gaps, k)
 
 
+def split_sequences(records):
+  """The records as three sequences of lengths n//3, 0, n - n//3 (the sequence
+  boundary falls inside a shard for most shard counts)."""
+  records = list(records)
+  c = len(records) // 3
+  return [records[:c], [], records[c:]]
+
+
 def make_source(kind, records, shard=None):
   from ml_metrics._src.chainables import io
   if kind == 'seq':
     ds = io.SequenceDataSource(records)
+    return ds.shard(*shard) if shard else ds
+  if kind == 'mseq':     # one data source over several sequences, one empty
+    ds = io.SequenceDataSource.from_sequences(split_sequences(records))
     return ds.shard(*shard) if shard else ds
   if kind == 'iter':     # round-robin shardable wrapper of a plain iterable
     ds = io.ShardedIterable(records)
@@ -277,12 +289,14 @@ class Observed:
         list(batches), agg, returned, error)
 
 
-def run_iterate(t, shard=None):
+def run_iterate(t, shard=None, data_source=None):
   """make().iterate() drained; -> Observed (agg = canon of it.agg_result,
-  returned = canon of the AggregateResult carried by StopIteration)."""
+  returned = canon of the AggregateResult carried by StopIteration).
+  data_source: iterate over this source instead of the transform's own."""
   from ml_metrics._src.chainables import transform
   runner = t.make(shard=shard) if shard is not None else t.make()
-  it = runner.iterate()
+  it = (runner.iterate() if data_source is None
+        else runner.iterate(data_source=data_source))
   batches, ret = drain(it)
   returned = ('none',) if ret is None else (
       ('agg', canon_agg(ret.agg_result))
@@ -292,6 +306,15 @@ def run_iterate(t, shard=None):
       ret, transform.AggregateResult) else None
   ob.it_agg_state = it.agg_state
   return ob
+
+
+def worker_sources(t, shard=None):
+  """The data sources the worker threads of the first stage of `t` would each
+  iterate (`t` has num_threads > 0 there): the runner's own sharding of its
+  data source, taken without starting a thread."""
+  runner = t.make(shard=shard) if shard is not None else t.make()
+  first = runner._runners[0]  # pylint: disable=protected-access
+  return list(first._actual_inputs(None, None))  # pylint: disable=protected-access
 
 
 def reference(ops, agg, records):
